@@ -38,7 +38,7 @@ package main
 //@   on enter ctxerrgroup.Group.GoContext(g, c, f): assert(g == eg && c == ectx && nWait == 0, "activities_run_in_one_group_on_its_context"); nGo++
 //@   on call ctxerrgroup.Group.Wait(g) (e): assert(g == eg && nGo == 3, "terminal_https_service_and_broker_all_started_before_waiting"); werr = e; nWait++
 //@   on call slog.NewJSONHandler(w, o) (h): assert(imp(*logFile != "", nOpenLog == 1 && !logErr && boxes(w, lw) && boxes(lw, logf)), "log_records_go_to_the_file_named_by_the_log_flag")
-//@   ensures exit_status_reflects_how_the_run_ended: imp(nWait == 1, (code == 0) == (werr == nil || errors.Is(werr, io.EOF) || errors.Is(werr, hsrv.ErrOneShellClosed)))
+//@   ensures{C20,C12} exit_status_reflects_how_the_run_ended: imp(nWait == 1, (code == 0) == (werr == nil || errors.Is(werr, io.EOF) || errors.Is(werr, hsrv.ErrOneShellClosed)))
 //@   ensures terminal_restored: !raw
 //@   ensures failures_nonzero: imp(iobErr || hsrvErr || ipErr, code != 0 && said)
 //@   ensures startup_failure_reported_with_its_cause_and_nonzero_status: imp(pending != 0, reported && code != 0)
